@@ -4,6 +4,9 @@ SPEC = {
  "props": [
   "props/C15.vo"
  ],
+ "tie": ["tie/VecEquiv.vo"],
+ "gen_items": ["src/vecs/thin.rs:reserve + reserve_exact"],
+ "tieA_required": True,
  "case_libs": [
   "theories/CasesVec.vo"
  ],
